@@ -98,6 +98,7 @@ void cpuWatchdog(verif::Harness* H, pthread_t caseThread) {
                        .kv("thread_cpu_seconds_without_completing", cpu - cpuAtSeq).kv("operation", op)
                        .kv("config", cc ? cc->cfg : "").kv("history", cc ? cc->history() : "").str());
       H->line(J().kv("ev", "hang_exit").kv("case", H->curCase).str());
+      bumpCrashCount();
       _exit(3);
     }
   }
@@ -201,6 +202,9 @@ void fatalReport(const char* fallback) {
                      .kv("config", cc ? cc->cfg : "").kv("history", cc ? cc->history() : "").kv("stderr", excerpt).str());
   }
   H->line(J().kv("ev", "hang_exit").kv("case", H->curCase).str());
+  bumpCrashCount();
+  if (H->curCase + 1 >= H->endCase() && !g_capFile.empty())
+    unlink(g_capFile.c_str()); // the run ends with this case
   _exit(3);
 }
 
@@ -254,6 +258,19 @@ int main(int argc, char** argv) {
   galois::setActiveThreads(1); // the property is about single-threaded use
   std::thread watchdog(cpuWatchdog, &H, pthread_self());
   uint64_t salt = (uint64_t)H.paramInt("salt", 0); // thorough tier: several processes with different sequences
+  {
+    // crash-cap state shared by the restarts of this run (same driver process, same arguments)
+    const char* off = getenv("VERIF_C14_NO_CRASHCAP");
+    if (H.only < 0 && !(off && *off == '1')) {
+      uint64_t h = verif::mix(H.seed, salt * 2 + VERIF_ASAN);
+      for (char ch : H.param("comps", "") + "#" + std::to_string(H.cases))
+        h = verif::mix(h, (unsigned char)ch);
+      char buf[128];
+      snprintf(buf, sizeof buf, "/var/tmp/c14-crashcap-%d-%016llx", (int)getppid(), (unsigned long long)h);
+      g_capFile = buf;
+      loadCrashCounts();
+    }
+  }
 
   // --param comps=a,b,c restricts the components of this process
   std::vector<const Comp*> sched;
@@ -295,6 +312,8 @@ int main(int argc, char** argv) {
     noteProgress("case-start");
     cp.fn(c);
     g_curCase.store(nullptr);
+    if (c.skipped)
+      continue;
     if (!c.begun) {
       fprintf(stderr, "runner %s did not begin its case\n", cp.name);
       return 2;
@@ -318,8 +337,16 @@ int main(int argc, char** argv) {
         .kv("cases_ended_by_violation", (int)c.bad);
     for (auto& e : c.extra)
       obs.kv(e.first.c_str(), e.second);
+    if (g_skippedCases) {
+      obs.kv("cases_skipped_after_crash_cap", g_skippedCases);
+      g_skippedCases = 0;
+    }
     H.end(k, sig, nontrivial, obs.str());
   }
+  if (g_skippedCases)
+    H.note("cases_skipped_after_crash_cap", J().kv("n", g_skippedCases).str());
+  if (!g_capFile.empty())
+    unlink(g_capFile.c_str());
   g_stopWatch.store(true);
   watchdog.join();
   return 0;
